@@ -25,6 +25,9 @@ theories/Conc/RwMutexModel.vos theories/Conc/RwMutexModel.vok theories/Conc/RwMu
 theories/Conc/RwMutexProofs.vo theories/Conc/RwMutexProofs.glob theories/Conc/RwMutexProofs.v.beautified theories/Conc/RwMutexProofs.required_vo: theories/Conc/RwMutexProofs.v theories/Conc/RwMutexModel.vo
 theories/Conc/RwMutexProofs.vio: theories/Conc/RwMutexProofs.v theories/Conc/RwMutexModel.vio
 theories/Conc/RwMutexProofs.vos theories/Conc/RwMutexProofs.vok theories/Conc/RwMutexProofs.required_vos: theories/Conc/RwMutexProofs.v theories/Conc/RwMutexModel.vos
+theories/Conc/RwMutexThms.vo theories/Conc/RwMutexThms.glob theories/Conc/RwMutexThms.v.beautified theories/Conc/RwMutexThms.required_vo: theories/Conc/RwMutexThms.v theories/Conc/RwMutexModel.vo theories/Conc/RwMutexProofs.vo theories/Conc/RwMutexInv.vo
+theories/Conc/RwMutexThms.vio: theories/Conc/RwMutexThms.v theories/Conc/RwMutexModel.vio theories/Conc/RwMutexProofs.vio theories/Conc/RwMutexInv.vio
+theories/Conc/RwMutexThms.vos theories/Conc/RwMutexThms.vok theories/Conc/RwMutexThms.required_vos: theories/Conc/RwMutexThms.v theories/Conc/RwMutexModel.vos theories/Conc/RwMutexProofs.vos theories/Conc/RwMutexInv.vos
 theories/Conc/TPool.vo theories/Conc/TPool.glob theories/Conc/TPool.v.beautified theories/Conc/TPool.required_vo: theories/Conc/TPool.v 
 theories/Conc/TPool.vio: theories/Conc/TPool.v 
 theories/Conc/TPool.vos theories/Conc/TPool.vok theories/Conc/TPool.required_vos: theories/Conc/TPool.v 
@@ -97,6 +100,9 @@ theories/Cont/StrLemmas.vos theories/Cont/StrLemmas.vok theories/Cont/StrLemmas.
 theories/Cont/StrModel.vo theories/Cont/StrModel.glob theories/Cont/StrModel.v.beautified theories/Cont/StrModel.required_vo: theories/Cont/StrModel.v theories/Cont/StrL0.vo
 theories/Cont/StrModel.vio: theories/Cont/StrModel.v theories/Cont/StrL0.vio
 theories/Cont/StrModel.vos theories/Cont/StrModel.vok theories/Cont/StrModel.required_vos: theories/Cont/StrModel.v theories/Cont/StrL0.vos
+theories/Cont/StrOps.vo theories/Cont/StrOps.glob theories/Cont/StrOps.v.beautified theories/Cont/StrOps.required_vo: theories/Cont/StrOps.v theories/Cont/StrL0.vo theories/Cont/StrModel.vo theories/Cont/StrLemmas.vo theories/Cont/StrGrow.vo theories/Cont/StrCore.vo
+theories/Cont/StrOps.vio: theories/Cont/StrOps.v theories/Cont/StrL0.vio theories/Cont/StrModel.vio theories/Cont/StrLemmas.vio theories/Cont/StrGrow.vio theories/Cont/StrCore.vio
+theories/Cont/StrOps.vos theories/Cont/StrOps.vok theories/Cont/StrOps.required_vos: theories/Cont/StrOps.v theories/Cont/StrL0.vos theories/Cont/StrModel.vos theories/Cont/StrLemmas.vos theories/Cont/StrGrow.vos theories/Cont/StrCore.vos
 theories/Cont/StrProofs.vo theories/Cont/StrProofs.glob theories/Cont/StrProofs.v.beautified theories/Cont/StrProofs.required_vo: theories/Cont/StrProofs.v theories/Gen/Consts.vo theories/Cont/StrL0.vo theories/Cont/StrModel.vo
 theories/Cont/StrProofs.vio: theories/Cont/StrProofs.v theories/Gen/Consts.vio theories/Cont/StrL0.vio theories/Cont/StrModel.vio
 theories/Cont/StrProofs.vos theories/Cont/StrProofs.vok theories/Cont/StrProofs.required_vos: theories/Cont/StrProofs.v theories/Gen/Consts.vos theories/Cont/StrL0.vos theories/Cont/StrModel.vos
@@ -187,6 +193,9 @@ theories/Msg/MsgDefs.vos theories/Msg/MsgDefs.vok theories/Msg/MsgDefs.required_
 theories/Msg/MsgEqProofs.vo theories/Msg/MsgEqProofs.glob theories/Msg/MsgEqProofs.v.beautified theories/Msg/MsgEqProofs.required_vo: theories/Msg/MsgEqProofs.v theories/Gen/Consts.vo theories/Msg/MsgDefs.vo theories/Msg/MsgModel.vo theories/Msg/MsgBytesProofs.vo theories/Msg/MsgSizeProofs.vo theories/Msg/MsgRoundTrip.vo theories/Msg/MsgApiProofs.vo
 theories/Msg/MsgEqProofs.vio: theories/Msg/MsgEqProofs.v theories/Gen/Consts.vio theories/Msg/MsgDefs.vio theories/Msg/MsgModel.vio theories/Msg/MsgBytesProofs.vio theories/Msg/MsgSizeProofs.vio theories/Msg/MsgRoundTrip.vio theories/Msg/MsgApiProofs.vio
 theories/Msg/MsgEqProofs.vos theories/Msg/MsgEqProofs.vok theories/Msg/MsgEqProofs.required_vos: theories/Msg/MsgEqProofs.v theories/Gen/Consts.vos theories/Msg/MsgDefs.vos theories/Msg/MsgModel.vos theories/Msg/MsgBytesProofs.vos theories/Msg/MsgSizeProofs.vos theories/Msg/MsgRoundTrip.vos theories/Msg/MsgApiProofs.vos
+theories/Msg/MsgExamples.vo theories/Msg/MsgExamples.glob theories/Msg/MsgExamples.v.beautified theories/Msg/MsgExamples.required_vo: theories/Msg/MsgExamples.v theories/Gen/Consts.vo theories/Msg/MsgDefs.vo theories/Msg/MsgModel.vo theories/Msg/MsgApi.vo theories/Msg/MsgBytesProofs.vo theories/Msg/MsgRoundTrip.vo
+theories/Msg/MsgExamples.vio: theories/Msg/MsgExamples.v theories/Gen/Consts.vio theories/Msg/MsgDefs.vio theories/Msg/MsgModel.vio theories/Msg/MsgApi.vio theories/Msg/MsgBytesProofs.vio theories/Msg/MsgRoundTrip.vio
+theories/Msg/MsgExamples.vos theories/Msg/MsgExamples.vok theories/Msg/MsgExamples.required_vos: theories/Msg/MsgExamples.v theories/Gen/Consts.vos theories/Msg/MsgDefs.vos theories/Msg/MsgModel.vos theories/Msg/MsgApi.vos theories/Msg/MsgBytesProofs.vos theories/Msg/MsgRoundTrip.vos
 theories/Msg/MsgModel.vo theories/Msg/MsgModel.glob theories/Msg/MsgModel.v.beautified theories/Msg/MsgModel.required_vo: theories/Msg/MsgModel.v theories/Gen/Consts.vo theories/Msg/MsgDefs.vo
 theories/Msg/MsgModel.vio: theories/Msg/MsgModel.v theories/Gen/Consts.vio theories/Msg/MsgDefs.vio
 theories/Msg/MsgModel.vos theories/Msg/MsgModel.vok theories/Msg/MsgModel.required_vos: theories/Msg/MsgModel.v theories/Gen/Consts.vos theories/Msg/MsgDefs.vos
@@ -214,9 +223,9 @@ theories/Pat/PatProofs.vos theories/Pat/PatProofs.vok theories/Pat/PatProofs.req
 theories/Pat/Translate.vo theories/Pat/Translate.glob theories/Pat/Translate.v.beautified theories/Pat/Translate.required_vo: theories/Pat/Translate.v theories/Gen/Consts.vo theories/Pat/Ere.vo
 theories/Pat/Translate.vio: theories/Pat/Translate.v theories/Gen/Consts.vio theories/Pat/Ere.vio
 theories/Pat/Translate.vos theories/Pat/Translate.vok theories/Pat/Translate.required_vos: theories/Pat/Translate.v theories/Gen/Consts.vos theories/Pat/Ere.vos
-theories/Properties_C01.vo theories/Properties_C01.glob theories/Properties_C01.v.beautified theories/Properties_C01.required_vo: theories/Properties_C01.v theories/Msg/MsgDefs.vo theories/Msg/MsgModel.vo theories/Msg/MsgApi.vo theories/Msg/MsgBytesProofs.vo theories/Msg/MsgSizeProofs.vo theories/Msg/MsgRoundTrip.vo
-theories/Properties_C01.vio: theories/Properties_C01.v theories/Msg/MsgDefs.vio theories/Msg/MsgModel.vio theories/Msg/MsgApi.vio theories/Msg/MsgBytesProofs.vio theories/Msg/MsgSizeProofs.vio theories/Msg/MsgRoundTrip.vio
-theories/Properties_C01.vos theories/Properties_C01.vok theories/Properties_C01.required_vos: theories/Properties_C01.v theories/Msg/MsgDefs.vos theories/Msg/MsgModel.vos theories/Msg/MsgApi.vos theories/Msg/MsgBytesProofs.vos theories/Msg/MsgSizeProofs.vos theories/Msg/MsgRoundTrip.vos
+theories/Properties_C01.vo theories/Properties_C01.glob theories/Properties_C01.v.beautified theories/Properties_C01.required_vo: theories/Properties_C01.v theories/Msg/MsgDefs.vo theories/Msg/MsgModel.vo theories/Msg/MsgApi.vo theories/Msg/MsgBytesProofs.vo theories/Msg/MsgSizeProofs.vo theories/Msg/MsgRoundTrip.vo theories/Msg/MsgReprProofs.vo theories/Msg/MsgApiProofs.vo theories/Msg/MsgEqProofs.vo theories/Msg/MsgExamples.vo
+theories/Properties_C01.vio: theories/Properties_C01.v theories/Msg/MsgDefs.vio theories/Msg/MsgModel.vio theories/Msg/MsgApi.vio theories/Msg/MsgBytesProofs.vio theories/Msg/MsgSizeProofs.vio theories/Msg/MsgRoundTrip.vio theories/Msg/MsgReprProofs.vio theories/Msg/MsgApiProofs.vio theories/Msg/MsgEqProofs.vio theories/Msg/MsgExamples.vio
+theories/Properties_C01.vos theories/Properties_C01.vok theories/Properties_C01.required_vos: theories/Properties_C01.v theories/Msg/MsgDefs.vos theories/Msg/MsgModel.vos theories/Msg/MsgApi.vos theories/Msg/MsgBytesProofs.vos theories/Msg/MsgSizeProofs.vos theories/Msg/MsgRoundTrip.vos theories/Msg/MsgReprProofs.vos theories/Msg/MsgApiProofs.vos theories/Msg/MsgEqProofs.vos theories/Msg/MsgExamples.vos
 theories/Properties_C03.vo theories/Properties_C03.glob theories/Properties_C03.v.beautified theories/Properties_C03.required_vo: theories/Properties_C03.v theories/Gw/GwBase.vo theories/Gw/FrameModel.vo theories/Gw/FrameProofs.vo
 theories/Properties_C03.vio: theories/Properties_C03.v theories/Gw/GwBase.vio theories/Gw/FrameModel.vio theories/Gw/FrameProofs.vio
 theories/Properties_C03.vos theories/Properties_C03.vok theories/Properties_C03.required_vos: theories/Properties_C03.v theories/Gw/GwBase.vos theories/Gw/FrameModel.vos theories/Gw/FrameProofs.vos
@@ -262,6 +271,9 @@ theories/Properties_C19.vos theories/Properties_C19.vok theories/Properties_C19.
 theories/Properties_C20.vo theories/Properties_C20.glob theories/Properties_C20.v.beautified theories/Properties_C20.required_vo: theories/Properties_C20.v theories/Pulse/PulseModel.vo theories/Pulse/PulseProofs.vo
 theories/Properties_C20.vio: theories/Properties_C20.v theories/Pulse/PulseModel.vio theories/Pulse/PulseProofs.vio
 theories/Properties_C20.vos theories/Properties_C20.vok theories/Properties_C20.required_vos: theories/Properties_C20.v theories/Pulse/PulseModel.vos theories/Pulse/PulseProofs.vos
+theories/Pulse/PulseForest.vo theories/Pulse/PulseForest.glob theories/Pulse/PulseForest.v.beautified theories/Pulse/PulseForest.required_vo: theories/Pulse/PulseForest.v theories/Pulse/PulseModel.vo theories/Pulse/PulseInv.vo
+theories/Pulse/PulseForest.vio: theories/Pulse/PulseForest.v theories/Pulse/PulseModel.vio theories/Pulse/PulseInv.vio
+theories/Pulse/PulseForest.vos theories/Pulse/PulseForest.vok theories/Pulse/PulseForest.required_vos: theories/Pulse/PulseForest.v theories/Pulse/PulseModel.vos theories/Pulse/PulseInv.vos
 theories/Pulse/PulseInv.vo theories/Pulse/PulseInv.glob theories/Pulse/PulseInv.v.beautified theories/Pulse/PulseInv.required_vo: theories/Pulse/PulseInv.v theories/Pulse/PulseModel.vo
 theories/Pulse/PulseInv.vio: theories/Pulse/PulseInv.v theories/Pulse/PulseModel.vio
 theories/Pulse/PulseInv.vos theories/Pulse/PulseInv.vok theories/Pulse/PulseInv.required_vos: theories/Pulse/PulseInv.v theories/Pulse/PulseModel.vos
@@ -292,6 +304,9 @@ theories/Refl/Index.vos theories/Refl/Index.vok theories/Refl/Index.required_vos
 theories/Refl/IndexModel.vo theories/Refl/IndexModel.glob theories/Refl/IndexModel.v.beautified theories/Refl/IndexModel.required_vo: theories/Refl/IndexModel.v theories/Refl/Index.vo
 theories/Refl/IndexModel.vio: theories/Refl/IndexModel.v theories/Refl/Index.vio
 theories/Refl/IndexModel.vos theories/Refl/IndexModel.vok theories/Refl/IndexModel.required_vos: theories/Refl/IndexModel.v theories/Refl/Index.vos
+theories/Refl/IndexModelProofs.vo theories/Refl/IndexModelProofs.glob theories/Refl/IndexModelProofs.v.beautified theories/Refl/IndexModelProofs.required_vo: theories/Refl/IndexModelProofs.v theories/Refl/Index.vo theories/Refl/IndexProofs.vo theories/Refl/IndexModel.vo
+theories/Refl/IndexModelProofs.vio: theories/Refl/IndexModelProofs.v theories/Refl/Index.vio theories/Refl/IndexProofs.vio theories/Refl/IndexModel.vio
+theories/Refl/IndexModelProofs.vos theories/Refl/IndexModelProofs.vok theories/Refl/IndexModelProofs.required_vos: theories/Refl/IndexModelProofs.v theories/Refl/Index.vos theories/Refl/IndexProofs.vos theories/Refl/IndexModel.vos
 theories/Refl/IndexProofs.vo theories/Refl/IndexProofs.glob theories/Refl/IndexProofs.v.beautified theories/Refl/IndexProofs.required_vo: theories/Refl/IndexProofs.v theories/Refl/Index.vo
 theories/Refl/IndexProofs.vio: theories/Refl/IndexProofs.v theories/Refl/Index.vio
 theories/Refl/IndexProofs.vos theories/Refl/IndexProofs.vok theories/Refl/IndexProofs.required_vos: theories/Refl/IndexProofs.v theories/Refl/Index.vos
